@@ -171,12 +171,22 @@ def main(argv=None):
         if r.twin is not None:
             twins_run += 1
             twins_ok += bool(r.twin)
-        if len(samples) < 8:
-            samples.extend(r.samples[:2])
+        samples.extend(r.samples[:6])
         for nt in r.notes:
             if nt not in notes and not nt.startswith("twin perturbed"):
                 notes.append(nt)
         functions.update(r.functions)
+    # a few representative obligations: solver-decided ones first, then symbolic goals, from distinct items
+    samples.sort(key=lambda x: (x.get("cells", 0) == 0, x.get("goal") in ("true", "false"), len(str(x.get("goal", ""))) < 40))
+    picked, seen_items = [], {}
+    for x in samples:
+        if seen_items.get(x["item"], 0) >= 2:
+            continue
+        seen_items[x["item"]] = seen_items.get(x["item"], 0) + 1
+        picked.append(x)
+        if len(picked) >= 8:
+            break
+    samples = picked
     wall = time.time() - t0
 
     known = [k for k in known_findings() if k.get("property") == prop_id and k.get("status") == "known"]
